@@ -97,6 +97,9 @@ class MemBlockingControl(BaseBlockingControl):
         :return: An iterator over invocations that are blocking others.
         :rtype: Iterator["InvocationId"]
         """
+        if max_num_invocations <= 0:
+            # a runner without free slots asks for 0: nothing may be handed out
+            return
         with self._lock:
             candidates = list(self._ready)
         for inv_id in candidates:
